@@ -4,7 +4,6 @@ import (
 	"context"
 	"fmt"
 	"sort"
-	"strings"
 	"unique"
 
 	"github.com/samber/lo"
@@ -111,7 +110,6 @@ func (n *aNC) ResourceSlices() map[dra.InstanceTypeID][]dra.ResourceSlice {
 
 type acase struct {
 	Kind     string           `json:"kind"`
-	KfKey    string           `json:"kf_key,omitempty"`
 	Setup    map[string]any   `json:"setup"`
 	Ops      []string         `json:"ops"`
 	Failures int              `json:"allocations_refused"`
@@ -347,20 +345,24 @@ func runA(c *kit.Ctx, r *kit.Rand, idx int) {
 		}
 	}
 	deleting := sets.New[types.UID]()
+	migratingOnlyDeleting := false
 	if r.Chance(1, 3) { // the provisioner has freed this device already (it is not in the preallocated set)
 		dev := kit.Pick(r, exclNames)
 		devID := cloudprovider.DeviceID{Driver: unique.Make(exclDriver), Pool: unique.Make("excl-pool"), Device: unique.Make(dev)}
 		if !state.ExclusiveDevices.Has(devID) {
 			deleting.Insert("deleting-pod")
 			consumers := []resourcev1.ResourceClaimConsumerReference{{Resource: "pods", Name: "old", UID: "deleting-pod"}}
-			switch r.Intn(3) {
+			migratingOnlyDeleting = true
+			switch r.Intn(4) {
 			case 1: // also reserved by a pod that stays: the claim stays committed, its device stays taken
 				consumers = append(consumers, resourcev1.ResourceClaimConsumerReference{Resource: "pods", Name: "live", UID: "live-pod"})
+				migratingOnlyDeleting = false
 				state.ExclusiveDevices.Insert(devID)
 				pre = append(pre, devID.String())
 				c.Count("A:setup:claim-reserved-by-deleting-and-live-pods")
 			case 2: // reserved by something that is not a pod
 				consumers = []resourcev1.ResourceClaimConsumerReference{{APIGroup: "example.com", Resource: "jobs", Name: "j", UID: "deleting-pod"}}
+				migratingOnlyDeleting = false
 				state.ExclusiveDevices.Insert(devID)
 				pre = append(pre, devID.String())
 				c.Count("A:setup:claim-reserved-by-non-pod-consumer")
@@ -457,8 +459,13 @@ func runA(c *kit.Ctx, r *kit.Rand, idx int) {
 	failures := 0
 	claimNo := 0
 	nOps := r.Range(4, 10)
+	setupOf := func() map[string]any {
+		return map[string]any{"exclusive": exclNames, "shared_capacity": capTotal, "shared_preallocated": preCap, "counter_total": counterTotal,
+			"partition_costs": partCost, "template_capacity": tmplCap, "template_counter": tmplCounter, "preallocated": pre,
+			"migrating_claim_reserved_only_by_deleting_pods": migratingOnlyDeleting,
+			"nodeclaims": lo.Map(ncs, func(n *aNC, _ int) string { return n.id })}
+	}
 	var lastNC *aNC
-	kfKey := ""
 	for i := 0; i < nOps; i++ {
 		n := kit.Pick(r, ncs)
 		if lastNC != nil && r.Chance(2, 5) { // several pods land on the same NodeClaim
@@ -491,6 +498,15 @@ func runA(c *kit.Ctx, r *kit.Rand, idx int) {
 				jreq = append(jreq, "all "+cls)
 				c.Count("A:request:all-mode-" + cls)
 			case 6:
+				if r.Chance(1, 2) { // template GPU where the instance type has one, else a share of the in-cluster shared device
+					amt := r.Range(1, 4)
+					sub := test.DeviceSubRequest("b", "cap", 1)
+					sub.Capacity = &resourcev1.CapacityRequirements{Requests: test.CapacityRequest(fmt.Sprint(amt))}
+					reqs = append(reqs, test.FirstAvailableDeviceRequest(name, test.DeviceSubRequest("a", "gpu", 1), sub))
+					jreq = append(jreq, fmt.Sprintf("first-available gpu | cap mem=%d", amt))
+					c.Count("A:request:first-available-template-or-shared-capacity")
+					break
+				}
 				reqs = append(reqs, test.FirstAvailableDeviceRequest(name, test.DeviceSubRequest("a", "gpu", 1), test.DeviceSubRequest("b", kit.Pick(r, []string{"excl", "part"}), 1)))
 				jreq = append(jreq, "first-available gpu | in-cluster")
 			case 7: // a capacity dimension the device does not publish
@@ -560,12 +576,39 @@ func runA(c *kit.Ctx, r *kit.Rand, idx int) {
 				claims = append([]*resourcev1.ResourceClaim{migrating}, claims...)
 				jreq = append(jreq, "+ allocated in-cluster, reserved only by deleting pods: "+migrating.Name)
 				c.Count("A:claims:reserved-only-by-deleting-pods")
-				migrating = nil
 			}
 		case 3:
 			claims = nil
 			jreq = []string{"no claims"}
 			c.Count("A:claims:none")
+		}
+		// a second pod that shares the migrating claim after a first pod of the pass re-allocated it
+		if migrating != nil && migratingOnlyDeleting && claims != nil && alloc.ResourceClaimAllocationMetadataForClaim(types.NamespacedName{Namespace: "default", Name: migrating.Name}) != nil &&
+			!lo.Contains(claims, migrating) && r.Chance(1, 3) {
+			claims = append([]*resourcev1.ResourceClaim{migrating}, claims...)
+			jreq = append(jreq, "+ second pod sharing the re-allocated migrating-claim")
+			c.Count("A:claims:second-pod-shares-reallocated-migrating-claim")
+		}
+		// ClassifyClaims, per claim, against the model; and the devices of claims this pass already allocated
+		before := map[string]string{}
+		if searched, cerr := dra.VerifC17Unallocated(alloc, n, claims); cerr == nil {
+			for _, cl := range claims {
+				meta := alloc.ResourceClaimAllocationMetadataForClaim(types.NamespacedName{Namespace: cl.Namespace, Name: cl.Name})
+				onlyDel := cl == migrating && migratingOnlyDeleting
+				if cl.Status.Allocation == nil && meta == nil && !r.Chance(1, 10) {
+					continue // the plain case (a fresh claim) is sampled, the others are all kept
+				}
+				c.AddCase(fmt.Sprintf("CaseK %s %s %s %s", kit.GBool(cl.Status.Allocation != nil), kit.GBool(onlyDel), kit.GBool(meta != nil), kit.GBool(lo.Contains(searched, cl.Name))),
+					map[string]any{"kind": "classify-claims", "setup": setupOf(), "ops": jops, "claim": cl.Name, "allocated_in_cluster": cl.Status.Allocation != nil,
+						"reserved_only_by_deleting_pods": onlyDel, "allocated_earlier_in_this_pass": meta != nil, "searched_again": lo.Contains(searched, cl.Name)},
+					fmt.Sprintf("K:%v%v%v", cl.Status.Allocation != nil, onlyDel, meta != nil))
+				c.Count(fmt.Sprintf("K:in-cluster=%v only-deleting=%v in-memory=%v", cl.Status.Allocation != nil, onlyDel, meta != nil))
+			}
+		}
+		for _, cl := range claims {
+			if meta := alloc.ResourceClaimAllocationMetadataForClaim(types.NamespacedName{Namespace: cl.Namespace, Name: cl.Name}); meta != nil {
+				before[cl.Name] = fmt.Sprint(meta.Devices)
+			}
 		}
 		var res *dra.AllocationResult
 		var err error
@@ -628,11 +671,14 @@ func runA(c *kit.Ctx, r *kit.Rand, idx int) {
 			gobs = append(gobs, "(DPanic, [], [], [], [])")
 			jops = append(jops, fmt.Sprintf("allocate+commit %s %v on %s -> PANIC %s", claim.Name, jreq, n.id, msg))
 			c.Count("A:commit:panic")
-			if strings.Contains(msg, "attempted to commit claim which was already allocated") && lo.ContainsBy(claims, func(cl *resourcev1.ResourceClaim) bool { return cl.Name == "migrating-claim" }) {
-				kfKey = "claim-reserved-only-by-deleting-pods-is-allocated-again-for-a-second-pod"
-				c.Count("A:commit:panic-migrating-claim-allocated-twice")
-			}
+			c.Fail(c.NextID(), "Commit panicked: "+msg, "", map[string]any{"kind": "dra-allocator", "setup": setupOf(), "ops": jops})
 			break
+		}
+		for name, devsBefore := range before {
+			if meta := alloc.ResourceClaimAllocationMetadataForClaim(types.NamespacedName{Namespace: "default", Name: name}); meta == nil || fmt.Sprint(meta.Devices) != devsBefore {
+				c.Fail(c.NextID(), fmt.Sprintf("claim %s was already allocated in this pass and has been allocated again: %s -> %v", name, devsBefore, meta), "",
+					map[string]any{"kind": "dra-allocator", "setup": setupOf(), "ops": jops})
+			}
 		}
 		committed = append(committed, claims...)
 		gops = append(gops, "("+gop+")")
@@ -664,15 +710,13 @@ func runA(c *kit.Ctx, r *kit.Rand, idx int) {
 			c.Count("A:release:pruned-instance-types")
 		}
 	}
-	setup := map[string]any{"exclusive": exclNames, "shared_capacity": capTotal, "shared_preallocated": preCap, "counter_total": counterTotal,
-		"partition_costs": partCost, "template_capacity": tmplCap, "template_counter": tmplCounter, "preallocated": pre,
-		"nodeclaims": lo.Map(ncs, func(n *aNC, _ int) string { return n.id })}
+	setup := setupOf()
 	key := ""
 	if len(gops) >= 3 {
 		key = fmt.Sprint("A:", setup, jops)
 	}
 	c.AddCase(fmt.Sprintf("CaseX %s %s %s %s %s %s %s %s true %s %s", kit.GStrs(pre), kit.GStrs(udevs), kit.GStrs(uncs), kit.GStrs(itNames), kit.GStrs(ks),
-		gKVs(rem0), gKVs(capb), gKVs(tbudget), kit.GList(gops), kit.GList(gobs)), acase{"dra-allocator", kfKey, setup, jops, failures, nil}, key)
+		gKVs(rem0), gKVs(capb), gKVs(tbudget), kit.GList(gops), kit.GList(gobs)), acase{"dra-allocator", setup, jops, failures, nil}, key)
 
 	// ---- final-state oracle over the claim allocation metadata
 	var metas []claimMeta
@@ -682,7 +726,7 @@ func runA(c *kit.Ctx, r *kit.Rand, idx int) {
 	grecs, jrecs := finalRecords(w, metas)
 	budgets := lo.Assign(map[string]int64{}, rem0, capb)
 	c.Count(fmt.Sprintf("A:final:records:%d", lo.Min([]int{len(grecs) / 3 * 3, 12})))
-	c.AddCase(fmt.Sprintf("CaseF %s %s %s %s", kit.GStrs(pre), gKVs(budgets), gKVs(tbudget), kit.GList(grecs)), acase{"dra-final-state", "", setup, jops, failures, jrecs}, "")
+	c.AddCase(fmt.Sprintf("CaseF %s %s %s %s", kit.GStrs(pre), gKVs(budgets), gKVs(tbudget), kit.GList(grecs)), acase{"dra-final-state", setup, jops, failures, jrecs}, "")
 }
 
 // ------------------------------------------------------------------ part B: tracker budgets driven directly (pessimistic maximum)
@@ -786,7 +830,7 @@ func runB(c *kit.Ctx, r *kit.Rand, idx int) {
 	if len(gops) >= 4 {
 		key = fmt.Sprint("B:", rem0, capb, jops)
 	}
-	c.AddCase(fmt.Sprintf("CaseX [] %s %s %s %s %s %s [] false %s %s", kit.GStrs(udevs), kit.GStrs(ncs), kit.GStrs(its), kit.GStrs(ks), gKVs(rem0), gKVs(capb),
+	c.AddCase(fmt.Sprintf("CaseX [] %s %s %s %s %s %s [] true %s %s", kit.GStrs(udevs), kit.GStrs(ncs), kit.GStrs(its), kit.GStrs(ks), gKVs(rem0), gKVs(capb),
 		kit.GList(gops), kit.GList(gobs)), map[string]any{"kind": "dra-tracker-budgets", "remaining_counters": rem0, "capacity": capb, "ops": jops}, key)
 }
 
